@@ -234,7 +234,30 @@ def i4(ctx, rid):
                     if l is not None and fb.locals[l].get('h') == 'closure':
                         handlers.append(prog.fns[fb.locals[l]['a'][0]])
     if not handlers:
-        raise core.AnchorLost('index open-failure handler in Blob::from_file')
+        # the handler may be the Err arm of a `match` on the open result: then every index value a blob is built with is either
+        # the opened one or a fresh Index::new
+        inline = 0
+        for fb in open_path_bodies(prog):
+            opens = [c for c in fb.calls if c.bb in fb.reachable() and c.name == 'from_file' and any('IndexStruct' in t for t in prog.resolve(c))]
+            if not opens:
+                continue
+            for i, b in enumerate(fb.blocks):
+                if b['c'] or i not in fb.reachable():
+                    continue
+                for st in b['s']:
+                    if st['k'] == 'a' and st['r']['k'] == 'agg' and st['r'].get('adt') == 'blob::core::Blob' and 'index' in st['r'].get('fields', []):
+                        inline += 1
+                        k2 = 'open-failure-handler|%s' % prog.fns[fb.id].root
+                        op = st['r']['ops'][st['r']['fields'].index('index')]
+                        ogs = core.origins(fb, op)
+                        okk = ogs and all(o.kind == 'call' and (o.data.bb in [c.bb for c in opens] or o.data.target.endswith('IndexStruct::<FileIndex, K>::new')
+                                          or any(t in [prog.fns[x.id].root for x in open_path_bodies(prog)] for t in prog.resolve(o.data))) for o in ogs)
+                        if okk:
+                            ctx.ok(rid, k2, fb.where(i), 'the blob is built with the opened index or a fresh Index::new (rejected index files contribute nothing)')
+                        else:
+                            ctx.bad(rid, k2, fb.where(i), 'the index open-failure handling can yield an index that is neither the opened one nor a fresh in-memory one')
+        if not inline:
+            raise core.AnchorLost('index open-failure handler in Blob::from_file')
     for h in handlers:
         k2 = 'open-failure-handler|%s' % h.id
         good = True
@@ -475,12 +498,23 @@ def propagated_io_kinds(prog):
     give up (return Err) instead of regenerating the index"""
     roots = {prog.fns[b.id].root for b in open_path_bodies(prog)}
     for f in prog.fns.values():
-        if f.is_coroutine or f.id == prog.fns[f.id].root or prog.fns[f.id].root not in roots or '{closure' not in f.id:
+        if prog.fns[f.id].root not in roots:
             continue
-        dc = [c for c in f.calls if c.name == 'downcast_ref' and 'std::io::Error' in c.full]
+        dc = [c for c in f.calls if c.name == 'downcast_ref' and 'std::io::Error' in c.full and c.bb in f.reachable()]
         if not dc:
             continue
-        errs = [bb for (bb, k, _) in core.exit_defs(f) if k == 'err' and bb in f.reachable()]
+        # the Err exits that hand the *open error* on (a closure handler returns it, an inlined match arm does `return Err(error)`);
+        # other failures of the body (`?` of the regeneration ..) are not decisions of this handler
+        ekeys = {o.key() for o in core.origins(f, dc[0].args[0])}
+        errs = []
+        for (bb, k, payload) in core.exit_defs(f):
+            if k != 'err' or bb not in f.reachable() or bb not in f.reach_from([dc[0].bb]):
+                continue
+            if isinstance(payload, dict) and payload.get('k') == 'agg' and payload.get('ops'):
+                if {o.key() for o in core.origins(f, payload['ops'][0])} & ekeys:
+                    errs.append(bb)
+            elif not f.is_coroutine and f.id != prog.fns[f.id].root:
+                errs.append(bb)     # a closure handler: every Err it produces is its answer
         if not errs:
             return f, set()
         kinds = [c for c in f.calls if c.name == 'kind' and c.path.startswith('std::io::Error')]
